@@ -131,10 +131,13 @@ def MonthlyInst (r : Rule) (ds x : Inst) : Prop :=
 /-- ISO 8601 week number of a date within ISO year `y` (weeks start on Monday, week 1 contains January 4th) -/
 def week1Start (y : Nat) : Int := weekStart (days y 1 4)
 def isoWeeks (y : Nat) : Int := (week1Start (y + 1) - week1Start y) / 7
-/-- BYWEEKNO: x lies in week n (n < 0 counting from the last week) of its own calendar year's ISO numbering -/
+/-- BYWEEKNO: x lies in week n (n < 0 counting from the last week) of some ISO year `iy` - its own calendar year's or,
+for the days of a first week that lie in the December before and those of a last week in the January after, the
+neighbouring one's (weeks partition the days, so `iy` is determined by x, and a week with a day of year y belongs to
+ISO year y - 1, y or y + 1) -/
 def weeknoOk (r : Rule) (x : Inst) : Prop :=
-  ∃ n ∈ r.wk, let w := if n > 0 then n else isoWeeks x.y + 1 + n
-    1 ≤ w ∧ w ≤ isoWeeks x.y ∧ week1Start x.y + 7 * (w - 1) ≤ dayOf x ∧ dayOf x < week1Start x.y + 7 * w
+  ∃ n ∈ r.wk, ∃ iy ∈ [x.y - 1, x.y, x.y + 1], let w := if n > 0 then n else isoWeeks iy + 1 + n
+    1 ≤ w ∧ w ≤ isoWeeks iy ∧ week1Start iy + 7 * (w - 1) ≤ dayOf x ∧ dayOf x < week1Start iy + 7 * w
 
 /-- FREQ=YEARLY: every INTERVAL-th year from DTSTART's; BYMONTH, BYWEEKNO, BYYEARDAY, BYMONTHDAY expand (each restricts
 the dates of the year); BYDAY limits if BYYEARDAY or BYMONTHDAY is present (a numbered entry counting within the month
